@@ -98,6 +98,9 @@ def run(ctx, rep):
             rep.fail("A6", v.key.replace("C11|", "C13|", 1), v.where, v.message, witness=v.witness)
     if not n6:
         rep.ok("A6", "no unclassified hash-ordered choice in validation (C11 A6: %d instances)" % r11.counts.get("A6", 0), {"instances": r11.counts.get("A6", 0)})
+    rep.rule("H3", "inherits C12 H3: what add_content stores under an id is built only from the text given in that call (a replaced id keeps nothing of its previous content)")
+    import c12
+    c12.add_content_rule(ctx, rep, "C13", "H3")
     import pipeline
     pipeline.rule(ctx, rep, "C13", ['resolve_types', 'check_imports', 'check_declared_parcelables', 'check_containers', 'set_up_oneway_interface', 'check_methods'])
     rep.assumptions += ["TB-1 rustc MIR", "TB-3 HashMap get / contains_key depend only on the key and the entry stored under it"]
